@@ -418,6 +418,7 @@ macro_rules! rt_plain {
 }
 
 rt_plain!(
+    wt::glyf::SimpleGlyph,
     wt::avar::Avar,
     wt::base::Base,
     wt::cmap::Cmap,
@@ -3137,7 +3138,54 @@ const GEN_KINDS: &[(&str, u32)] = &[
     ("PackedDeltas", 6),
     ("PackedPointNumbers", 3),
     ("TupleVariationHeader", 1),
+    ("glyf-SimpleGlyph", 4),
 ];
+
+/// A simple glyph of 1..=4 contours with 1..=24 points each; consecutive points differ by deltas drawn from the classes
+/// that decide the encoding (0 = "same", one-byte short vectors up to +-255, the first two-byte values +-256 / +-257,
+/// anything), coordinates kept within +-16000 so that every delta fits 16 bits; runs of equal flags of every length
+/// (repeat counts) come from the zero / equal-class deltas. Detailed outline properties belong to C09; here the glyph
+/// is one more writable record type that has to read back as written.
+fn b_simple_glyph(t: &mut Tape) -> wt::glyf::SimpleGlyph {
+    use read_fonts::tables::glyf::CurvePoint;
+    let nc = 1 + t.below(4) as usize;
+    let (mut x, mut y) = (t.i16() / 4, t.i16() / 4);
+    let mut contours = vec![];
+    let mut step = |t: &mut Tape, v: i16| -> i16 {
+        let r = t.raw();
+        let mag: i32 = match r >> 28 {
+            0 | 1 => 0,
+            2 => 1,
+            3 => 255,
+            4 => 256,
+            5 => 257,
+            6 => 254,
+            7..=10 => ((r >> 8) & 0xFF) as i32,
+            11 | 12 => 256 + ((r >> 8) & 0x3FF) as i32,
+            _ => ((r >> 8) & 0x3FFF) as i32,
+        };
+        let d = if r & 1 == 1 { -mag } else { mag };
+        let n = v as i32 + d;
+        if (-16000..=16000).contains(&n) { n as i16 } else { (v as i32 - d).clamp(-16000, 16000) as i16 }
+    };
+    for _ in 0..nc {
+        let np = 1 + t.len(23);
+        let same_flag_run = t.chance(1, 3);
+        let mut pts = vec![];
+        for _ in 0..np {
+            x = step(t, x);
+            y = step(t, y);
+            let on_curve = if same_flag_run { true } else { t.bool() };
+            pts.push(CurvePoint { x, y, on_curve });
+        }
+        contours.push(wt::glyf::Contour::from(pts));
+    }
+    let ni = t.len(12);
+    let instructions = (0..ni).map(|_| t.u8()).collect();
+    let bbox = wt::glyf::Bbox { x_min: t.i16(), y_min: t.i16(), x_max: t.i16(), y_max: t.i16() };
+    t.lab_nd(if nc > 1 { "multi-contour" } else { "one-contour" });
+    wt::glyf::SimpleGlyph { bbox, contours, instructions }
+}
 
 fn gen_strategy(kinds: Vec<(&'static str, u32)>) -> impl Strategy<Value = GenCase> {
     let total: u32 = kinds.iter().map(|k| k.1).sum();
@@ -3250,6 +3298,7 @@ fn test_gen(c: &GenCase, stats: &Stats, _known_stage: bool) -> CaseResult {
         "GPOS" => run_gen("GPOS", &b_gpos(t), t, stats),
         "cmap" => run_gen("cmap", &b_cmap(t), t, stats),
         "BASE" => run_gen("BASE", &b_base(t), t, stats),
+        "glyf-SimpleGlyph" => run_gen("glyf-SimpleGlyph", &b_simple_glyph(t), t, stats),
         _ => Ok(()),
     }
 }
